@@ -785,12 +785,38 @@ fn gen_c19(seed: u64, idx: usize, _tier: Tier) -> GitScenario {
                 10 => GitOp::CpUpdate { id: None, raw_id: Some("\u{0}fail".into()), pending: g.rng.chance(1, 2) },
                 11 => GitOp::CpDelete,
                 12 => GitOp::OutDelete,
-                13 | 14 => GitOp::Analyze { begin: None, end: None },
-                _ => GitOp::Run,
+                13 | 14 => {
+                    // with an interval now and then: without a checkpoint it changes nothing
+                    let nc = g.model.commits.len();
+                    match g.rng.below(4) {
+                        0 => GitOp::Analyze { begin: Some(g.rng.below(nc)), end: None },
+                        1 => {
+                            let b = g.rng.below(nc);
+                            GitOp::Analyze { begin: Some(b), end: Some(g.rng.range(b, nc - 1)) }
+                        }
+                        _ => GitOp::Analyze { begin: None, end: None },
+                    }
+                }
+                _ => {
+                    if g.rng.chance(1, 3) {
+                        GitOp::RunFrom { begin: g.rng.below(g.model.commits.len()) }
+                    } else {
+                        GitOp::Run
+                    }
+                }
             };
             ops.push(op);
         }
         ops.push(GitOp::CpShow);
+        if g.rng.chance(1, 25) {
+            // a pending set whose stored document is well beyond 128 KiB (one zstd input block)
+            let at = g.rng.below(ops.len());
+            let bulk = GitOp::Bulk { dir: g.dirs[g.rng.below(g.dirs.len())].clone(), n: 1600 + g.rng.below(900), tag: 9000 };
+            g.model.apply(&bulk);
+            ops.insert(at, GitOp::CpShow);
+            ops.insert(at, GitOp::CpUpdate { id: None, raw_id: None, pending: true });
+            ops.insert(at, bulk);
+        }
     }
     sc.ops = ops;
     sc
@@ -902,10 +928,19 @@ fn exec_c19(sc: &GitScenario) -> Outcome {
                     out.violate("absent_after_delete", "out_delete_failed", format!("op {}: out delete --all failed: {}", i, o.err_str().trim()));
                 }
             }
-            GitOp::Analyze { .. } => {
-                let o = e.w.cli(&["analyze"]);
+            GitOp::Analyze { begin, end } => {
+                let mut a = vec!["analyze".to_string()];
+                if let Some(b) = begin {
+                    a.push("--begin".into());
+                    a.push(e.shas[(*b).min(e.shas.len() - 1)].clone());
+                }
+                if let Some(x) = end {
+                    a.push("--end".into());
+                    a.push(e.shas[(*x).min(e.shas.len() - 1)].clone());
+                }
+                let o = e.w.cli_v(&a);
                 out.sub_evals += 1;
-                out.trace.push(format!("{} analyze -> {:?}", i, o.code));
+                out.trace.push(format!("{} {:?} -> {:?}", i, a, o.code));
                 if e.cp_doc.is_none() {
                     match o.json() {
                         Some(d) if o.code == Some(0) => {
@@ -918,9 +953,13 @@ fn exec_c19(sc: &GitScenario) -> Outcome {
                     }
                 }
             }
-            GitOp::Run => {
+            GitOp::Run | GitOp::RunFrom { .. } => {
                 if e.cp_doc.is_none() {
-                    let tr = drive_run(&mut e.w, "M1", &RunScript { rand_seed: Some(sc.rand_seed), ..RunScript::simple(RunOpts { commands: vec!["build".into()], ..Default::default() }) }, hang);
+                    let begin = match op {
+                        GitOp::RunFrom { begin } => Some(e.shas[(*begin).min(e.shas.len() - 1)].clone()),
+                        _ => None,
+                    };
+                    let tr = drive_run(&mut e.w, "M1", &RunScript { rand_seed: Some(sc.rand_seed), ..RunScript::simple(RunOpts { commands: vec!["build".into()], begin, ..Default::default() }) }, hang);
                     out.sub_evals += 1;
                     let started: BTreeSet<String> = tr.helpers.iter().map(|h| h.target.clone()).collect();
                     out.trace.push(format!("{} run -> {:?} started {:?}", i, tr.code(), started));
@@ -934,6 +973,9 @@ fn exec_c19(sc: &GitScenario) -> Outcome {
                     out.advisories.push(format!("op failed: {}", m));
                     out.skipped = Some("history_op_failed(harness)".into());
                     return out;
+                }
+                if matches!(other, GitOp::Bulk { n, .. } if *n >= 1500) {
+                    out.fault("pending_set_whose_document_exceeds_128KiB", 1);
                 }
                 out.trace.push(format!("{} {:?}", i, other));
             }
